@@ -243,6 +243,8 @@ func checkProgram(ps emitbatch.ProgSpec, bt batch, ns *rig.NatsServer) *progResu
 	prog := ps.Program()
 	res.Features = prog.FeatureList()
 	addV := func(sig, what string, w interface{}) {
+		resMu.Lock()
+		defer resMu.Unlock()
 		for _, v := range res.Violations {
 			if v.Sig == sig {
 				return
@@ -409,6 +411,49 @@ func checkService(prog *idl.Program, f *idl.File, svc *idl.Service, gs *genreg.S
 			}
 		}
 	}
+	// concurrent phase: several callers share the one client (multiplexing);
+	// every call is still judged on its own by its correlation id
+	var two []methodInfo
+	for _, mi := range methods {
+		if !mi.m.Oneway {
+			two = append(two, mi)
+		}
+	}
+	if len(two) == 0 {
+		return
+	}
+	var wg sync.WaitGroup
+	callers := 6
+	for g := 0; g < callers; g++ {
+		wg.Add(1)
+		grng := rand.New(rand.NewSource(rng.Int63()))
+		go func(g int, grng *rand.Rand) {
+			defer wg.Done()
+			ct := client.Type()
+			for c := 0; c < calls; c++ {
+				mi := two[grng.Intn(len(two))]
+				var gm reflect.Value
+				for i := 0; i < ct.NumMethod(); i++ {
+					if norm(ct.Method(i).Name) == norm(mi.m.Name) {
+						gm = client.Method(i)
+					}
+				}
+				if !gm.IsValid() {
+					continue
+				}
+				token := fmt.Sprintf("%s-%s-%s-g%d-%d", svc.Name, mi.m.Name, strings.ReplaceAll(legName, "/", "-"), g, c)
+				one := runCall(prog, svc, mi, gm, token, legName, grng, exp, leg, res, addV)
+				resMu.Lock()
+				res.Calls++
+				res.Legs[legName]++
+				if one != "" {
+					res.Outcomes[one+"(concurrent)"]++
+				}
+				resMu.Unlock()
+			}
+		}(g, grng)
+	}
+	wg.Wait()
 }
 
 // runCall performs one call and returns the outcome class exercised.
@@ -522,7 +567,9 @@ func runCall(prog *idl.Program, svc *idl.Service, mi methodInfo, gm reflect.Valu
 	select {
 	case out = <-done:
 	case <-time.After(60 * time.Second):
+		resMu.Lock()
 		res.Inconclusive = append(res.Inconclusive, fmt.Sprintf("%s.%s on %s did not return within the watchdog", svc.Name, m.Name, legName))
+		resMu.Unlock()
 		return ""
 	}
 	if out == nil {
@@ -637,6 +684,8 @@ func runCall(prog *idl.Program, svc *idl.Service, mi methodInfo, gm reflect.Valu
 			addV("C03:"+class+"-type", fmt.Sprintf("%s.%s on %s: application error type %d, expected %d", svc.Name, m.Name, legName, ae.TypeId(), wantAppType), wit(nil))
 		}
 	}
+	resMu.Lock()
+	defer resMu.Unlock()
 	if res.Sample == nil && len(m.Args) > 0 && class == "value" {
 		res.Sample = map[string]interface{}{"service": svc.Name, "method": m.Name, "leg": legName, "arguments": argTrees, "returned": wantRet}
 	}
@@ -661,6 +710,7 @@ func exceptionValue(idlName string, f *idl.File) reflect.Value {
 	return reflect.Value{}
 }
 
+var resMu sync.Mutex
 var filePkg map[*idl.File]*genreg.Package
 var currentSub string
 
